@@ -593,8 +593,9 @@ pub struct Cond {
 pub struct FvRecord {
     /// None = condition-set offset 0 (universal)
     pub conds: Option<Vec<Cond>>,
-    /// (feature index, substitute lookup list), ascending feature index
-    pub substs: Vec<(u16, Vec<u16>)>,
+    /// (feature index, substitute lookup list), ascending feature index;
+    /// None = featureTableSubstitutionOffset 0 (the record matches but substitutes nothing)
+    pub substs: Option<Vec<(u16, Vec<u16>)>>,
 }
 
 #[derive(Clone, Debug)]
@@ -726,7 +727,7 @@ impl Gsub {
     fn write_fv(recs: &[FvRecord]) -> Vec<u8> {
         let mut w = W::new();
         w.u16(1).u16(0).u32(recs.len() as u32);
-        let mut blobs: Vec<(Option<Vec<u8>>, Vec<u8>)> = Vec::new();
+        let mut blobs: Vec<(Option<Vec<u8>>, Option<Vec<u8>>)> = Vec::new();
         for r in recs {
             let cs = r.conds.as_ref().map(|conds| {
                 let mut c = W::new();
@@ -739,18 +740,21 @@ impl Gsub {
                 }
                 c.b
             });
-            let mut f = W::new();
-            f.u16(1).u16(0).u16(r.substs.len() as u16);
-            let tabs: Vec<Vec<u8>> = r.substs.iter().map(|(_, l)| write_feature_table(l)).collect();
-            let mut at = 6 + 6 * r.substs.len();
-            for ((idx, _), t) in r.substs.iter().zip(&tabs) {
-                f.u16(*idx).u32(at as u32);
-                at += t.len();
-            }
-            for t in &tabs {
-                f.bytes(t);
-            }
-            blobs.push((cs, f.b));
+            let fts = r.substs.as_ref().map(|substs| {
+                let mut f = W::new();
+                f.u16(1).u16(0).u16(substs.len() as u16);
+                let tabs: Vec<Vec<u8>> = substs.iter().map(|(_, l)| write_feature_table(l)).collect();
+                let mut at = 6 + 6 * substs.len();
+                for ((idx, _), t) in substs.iter().zip(&tabs) {
+                    f.u16(*idx).u32(at as u32);
+                    at += t.len();
+                }
+                for t in &tabs {
+                    f.bytes(t);
+                }
+                f.b
+            });
+            blobs.push((cs, fts));
         }
         let mut at = 8 + 8 * recs.len();
         for (cs, f) in &blobs {
@@ -763,14 +767,23 @@ impl Gsub {
                     w.u32(0);
                 }
             }
-            w.u32(at as u32);
-            at += f.len();
+            match f {
+                Some(f) => {
+                    w.u32(at as u32);
+                    at += f.len();
+                }
+                None => {
+                    w.u32(0);
+                }
+            }
         }
         for (cs, f) in &blobs {
             if let Some(c) = cs {
                 w.bytes(c);
             }
-            w.bytes(f);
+            if let Some(f) = f {
+                w.bytes(f);
+            }
         }
         w.b
     }
